@@ -83,23 +83,85 @@ def the_gate(ctx):
                 ctx.check(ret == ('name', 'inf') or ret == ('const', 'inf'), 'wrap_bounds.function_wrapper#inf', 'gate true -> returns inf without calling the target',
                           'when the gate fires the wrapper returns %s' % (T.show(ret) if ret else None), f, p.exit_node)
     ctx.need(n_called >= 1, 'no path of the gate wrapper calls the target')
-    # the unbounded variant is selected only when both min and max are None
-    b_false = [s for s in stmts_of(outer.node) if isinstance(s, ast.Assign) and isinstance(s.targets[0], ast.Name)
-               and s.targets[0].id == 'bounds' and const_value(s.value, 1) is False]
-    ctx.need(b_false, 'wrap_bounds: `bounds = False` not found')
-    gs = guards_of(b_false[0], stop=outer.node)
-    tests = sorted(''.join(unparse(g[0]).split()) for g in gs if g[1] is False)
-    ctx.check(tests == sorted(['minisnotNoneandmaxisnotNone', 'minisnotNone', 'maxisnotNone']), 'wrap_bounds#unbounded',
-              'the pass-through wrapper is chosen only when min is None and max is None',
-              'the un-gated wrapper is selected under %s' % [(unparse(g[0]), g[1]) for g in gs], outer, b_false[0])
-    # one-sided defaults
-    for st in stmts_of(outer.node):
-        if isinstance(st, ast.Assign) and isinstance(st.targets[0], ast.Name) and st.targets[0].id in ('min', 'max') and 'inf' in unparse(st.value):
-            neg = any(isinstance(n_, ast.UnaryOp) and isinstance(n_.op, ast.USub) and isinstance(n_.operand, ast.Name) and n_.operand.id == 'inf'
-                      for n_ in ast.walk(st.value))
-            ctx.check(neg == (st.targets[0].id == 'min'), 'wrap_bounds#onesided-' + st.targets[0].id,
-                      'missing %s defaults to %sinf' % (st.targets[0].id, '-' if neg else '+'),
-                      'a missing %s bound defaults to %s' % (st.targets[0].id, unparse(st.value)), outer, st)
+    # which bounds the gate closes over: along every path of wrap_bounds that defines the gated wrapper, the closure
+    # variables the gate compares with are the caller's own min / max (asarray is transparent), or an all -inf / +inf
+    # default on a path that has established that this bound is None; the un-gated wrapper is defined only where both are None
+    pmin, pmax = outer.args()[1], outer.args()[2]
+    gated_defs = [d for d in walk_no_nested(outer.node, include_lambda=False) if isinstance(d, ast.FunctionDef) and d is not outer.node
+                  and any(isinstance(n, ast.Call) and isinstance(n.func, ast.Name) and n.func.id == tgt for n in ast.walk(d))]
+    ctx.need(gated_defs, 'wrap_bounds: wrapper definitions not found')
+    opaths = enumerate_paths(outer.node, relevant=lambda n: True)
+    ctx.stats['paths_enumerated'] += len(opaths)
+    n_g = n_u = 0
+    for p in opaths:
+        defs = [e[1] for e in p.events if e[0] == 'stmt' and e[1] in gated_defs]
+        if not defs:
+            continue
+        d = defs[-1]
+        cut = [e for e in p.events]
+        k = max(i_ for i_, e in enumerate(cut) if e[0] == 'stmt' and e[1] is d)
+        b, conds = symbolic_run(_Prefix(cut[:k]))
+        lits = set((c, tr) for c, tr, _ in conds)
+        is_gate = d is f.node
+        none_min = ('cmp', 'is', ('name', pmin), ('const', None))
+        none_max = ('cmp', 'is', ('name', pmax), ('const', None))
+
+        # constant propagation of flags (`bounds = True/False`): drop paths whose tests contradict the known value
+        if any(c[0] == 'const' and isinstance(c[1], bool) and c[1] != tr for c, tr in lits):
+            continue
+
+        def decided(atom, lits=lits):
+            """True / False / None: what the path literals entail about `param is None` (truth table over their atoms)"""
+            import itertools
+            from .. import pathcond as PC
+
+            def norm(t_):
+                if isinstance(t_, tuple) and t_ and t_[0] == 'cmp' and t_[1] == 'isnot':
+                    return ('not', ('cmp', 'is') + t_[2:])
+                if isinstance(t_, tuple) and t_ and t_[0] in ('and', 'or', 'not'):
+                    return (t_[0],) + tuple(norm(x) for x in t_[1:])
+                return t_
+            fs = [norm(c) if tr else ('not', norm(c)) for c, tr in lits if not (c[0] == 'const')]
+            atoms = [atom]
+            for f_ in fs:
+                for a in PC.leaves(f_):
+                    if a not in atoms:
+                        atoms.append(a)
+            if len(atoms) > 12:
+                return None
+            seen = set()
+            for bits in itertools.product((False, True), repeat=len(atoms)):
+                val = dict(zip(atoms, bits))
+                if all(PC.ev(f_, val) for f_ in fs):
+                    seen.add(val[atom])
+            return seen.pop() if len(seen) == 1 else None
+        if not is_gate:
+            n_u += 1
+            ctx.check(decided(none_min) is True and decided(none_max) is True, 'wrap_bounds#unbounded',
+                      'the pass-through wrapper is defined only where min is None and max is None',
+                      'the un-gated wrapper is selected on a path that has not established that both bounds are None: %s' % p.describe(6), outer, d)
+            continue
+        n_g += 1
+        for pname, atom, sign in ((pmin, none_min, -1), (pmax, none_max, 1)):
+            v = T.simp(b.env.get(pname, ('name', pname)))
+            if v == ('name', pname):
+                ctx.check(decided(atom) is False, 'wrap_bounds#closure-' + pname, 'the gate compares with the caller\'s own %s' % pname,
+                          'the gate closes over %s on a path where it may be None: %s' % (pname, p.describe(6)), outer, d)
+                continue
+            inf_t = ('name', 'inf')
+            want = inf_t if sign > 0 else T.simp(T.pneg(inf_t))
+            leaves = [x for x in T.subterms(v) if isinstance(x, tuple) and x and x[0] == 'name' and x[1] in (pmin, pmax)]
+            is_default = v[0] == 'listcomp' and len(v[1]) == 1 and v[1][0] == want
+            ctx.check(is_default and decided(atom) is True, 'wrap_bounds#closure-' + pname,
+                      'a missing %s defaults to all %sinf (only where %s is None)' % (pname, '-' if sign < 0 else '+', pname),
+                      'the gate compares with %s = %s instead of the caller\'s %s (a finite bound can be lost): %s' % (
+                          pname, T.show(v)[:70], pname, p.describe(5)), outer, d, statement='gate closes over %s = %s' % (pname, T.show(v)[:60]))
+    ctx.need(n_g >= 3 and n_u >= 1, 'wrap_bounds: expected >= 3 paths defining the gate and 1 defining the pass-through, found %d / %d' % (n_g, n_u))
+
+
+class _Prefix(object):
+    def __init__(self, events):
+        self.events = events
 
 
 @rule('C02.b', min_instances=4)
